@@ -272,6 +272,69 @@ static V qmul(V const &a, V const &b)
             a.c[0] * b.c[3] + a.c[1] * b.c[2] - a.c[2] * b.c[1] + a.c[3] * b.c[0]}};
 }
 
+// ---------- vector-valued components that override the metric (distanceVec with and without minimum image, distanceDir,
+// distancePairs, cartesian): the squared distance the biases use is obtained through the variable ----------
+static void check_component_metric(Ctx &ctx, vproxy &px, std::string const &cvname, std::vector<V> const &alpha, bool unitv, double box)
+{
+  Result &r = *ctx.r;
+  colvar *cv = px.cv(cvname);
+  if (!cv) { fprintf(stderr, "HARNESS-ERROR: colvar %s missing\n", cvname.c_str()); exit(2); }
+  colvarvalue proto = cv->value();
+  auto mkv = [&](V const &a) {
+    colvarvalue x(proto);
+    if (x.type() == colvarvalue::type_vector) { x.vector1d_value.resize(a.c.size()); for (size_t k = 0; k < a.c.size(); k++) x.vector1d_value[k] = a.c[k]; }
+    else { x.rvector_value = cvm::rvector(a.c[0], a.c[1], a.c[2]); }
+    return x;
+  };
+  auto d2of = [&](V const &a, V const &b) { return cv->dist2(mkv(a), mkv(b)); };
+  for (auto const &a : alpha)
+    for (auto const &b : alpha) {
+      r.count("evaluations");
+      double d2 = d2of(a, b), d2r = d2of(b, a);
+      colvarvalue g = cv->dist2_lgrad(mkv(a), mkv(b));
+      std::vector<double> gv;
+      if (g.type() == colvarvalue::type_vector) for (size_t k = 0; k < a.c.size(); k++) gv.push_back(g.vector1d_value[k]);
+      else { gv.push_back(g.rvector_value.x); gv.push_back(g.rvector_value.y); gv.push_back(g.rvector_value.z); }
+      std::string det = "{\"type\":\"" + ctx.tname + "\",\"a\":" + vstr(a) + ",\"b\":" + vstr(b) + ",\"dist2\":" + num(d2);
+      r.seen("nontrivial", fnv(ctx.tname + vstr(a) + vstr(b)));
+      if (!(d2 >= 0) || !std::isfinite(d2)) { viol(ctx, "dist2-not-finite-nonneg", det + "}"); continue; }
+      if (!close_rel(d2, d2r, std::max(1.0, d2), 1e-12, 1e-13)) viol(ctx, "dist2-asymmetric", det + ",\"reversed\":" + num(d2r) + "}");
+      // (on the sphere the squared angle of a value with itself is the rounding of acos near 1: ~4e-16)
+      bool same = true;
+      for (size_t k = 0; k < a.c.size(); k++) if (a.c[k] != b.c[k]) same = false;
+      if (same && d2 > (unitv ? 1e-12 : 1e-24)) viol(ctx, "dist2-nonzero-for-identical-values", det + "}");
+      // gradient with respect to the first argument, by central differences along every tangent direction
+      // (skipped where the minimum image jumps: a component of the difference at half a box length)
+      bool singular = false;
+      if (box > 0) for (size_t k = 0; k < a.c.size(); k++) if (std::fabs(std::fabs(std::remainder(a.c[k] - b.c[k], box)) - 0.5 * box) < 1e-6) singular = true;
+      if (unitv) {
+        double cs = 0; for (size_t k = 0; k < 3; k++) cs += a.c[k] * b.c[k];
+        if (cs < -1 + 1e-9) singular = true;  // antipodal
+      }
+      if (singular) { r.count("gradient_singular_skipped"); continue; }
+      r.count("gradient_checks");
+      double h = 1e-5;
+      for (size_t k = 0; k < a.c.size(); k++) {
+        V t; t.c.assign(a.c.size(), 0.0); t.c[k] = 1.0;
+        if (unitv) {  // project the direction on the tangent plane of the sphere at a
+          double p = a.c[k];
+          for (size_t q = 0; q < 3; q++) t.c[q] -= p * a.c[q];
+          double n = std::sqrt(dot(t, t));
+          if (n < 1e-6) continue;
+          for (auto &q : t.c) q /= n;
+        }
+        V ap = axpy(1.0, a, h, t), am = axpy(1.0, a, -h, t);
+        if (unitv) { ap = norml(ap); am = norml(am); }
+        double fd = (d2of(ap, b) - d2of(am, b)) / (2 * h);
+        double an = 0; for (size_t q = 0; q < a.c.size(); q++) an += gv[q] * t.c[q];
+        if (!close_rel(an, fd, std::max(1.0, std::fabs(fd)), 1e-6, 1e-7)) {
+          viol(ctx, "grad-is-not-the-derivative-of-dist2", det + ",\"direction\":" + std::to_string(k) + ",\"reported\":" + num(an) + ",\"finite_difference\":" + num(fd) + "}");
+          break;
+        }
+      }
+    }
+}
+
 int main(int argc, char **argv)
 {
   Args args(argc, argv);
@@ -332,6 +395,7 @@ int main(int argc, char **argv)
 
   // one proxy/module for the whole run (colvarvalue needs cvm for error reporting)
   vproxy *px = new vproxy(4);
+  px->set_cell(true, 4.0, 4.0, 4.0);  // orthorhombic cell for the minimum-image metric of distanceVec
   px->x[0] = cvm::rvector(1, 0, 0); px->x[1] = cvm::rvector(0, 0, 0);
   px->x[2] = cvm::rvector(0, 0, 1); px->x[3] = cvm::rvector(0, 1, 1);
   std::string conf;
@@ -343,6 +407,11 @@ int main(int argc, char **argv)
   conf += "colvar { name dm90\n dihedral { wrapAround -90.0\n group1 { atomNumbers 1 }\n group2 { atomNumbers 2 }\n group3 { atomNumbers 3 }\n group4 { atomNumbers 4 }\n } }\n";
   conf += "colvar { name z2pi\n distanceZ { period 6.28318530717958647692\n main { atomNumbers 1 }\n ref { atomNumbers 2 }\n } }\n";
   conf += "colvar { name z2pic\n distanceZ { period 6.28318530717958647692\n wrapAround 1.0\n main { atomNumbers 1 }\n ref { atomNumbers 2 }\n } }\n";
+  conf += "colvar { name dv\n distanceVec {\n group1 { atomNumbers 1 }\n group2 { atomNumbers 2 }\n } }\n";
+  conf += "colvar { name dvn\n distanceVec {\n forceNoPBC on\n group1 { atomNumbers 1 }\n group2 { atomNumbers 2 }\n } }\n";
+  conf += "colvar { name dd\n distanceDir {\n group1 { atomNumbers 1 }\n group2 { atomNumbers 2 }\n } }\n";
+  conf += "colvar { name dp\n distancePairs {\n group1 { atomNumbers 1 2 }\n group2 { atomNumbers 3 }\n } }\n";
+  conf += "colvar { name ca\n cartesian {\n atoms { atomNumbers 1 }\n } }\n";
   conf += "colvar { name z3\n distanceZ { period 3.0\n wrapAround -1.5\n main { atomNumbers 1 }\n ref { atomNumbers 2 }\n } }\n";
   if (px->config(conf) != 0) { fprintf(stderr, "HARNESS-ERROR: config failed: %s\n", px->errtxt.c_str()); return 2; }
 
@@ -362,6 +431,16 @@ int main(int argc, char **argv)
       for (int k : {-2, -1, 0, 1, 3}) vals.push_back(pc.c + (f - 0.5) * pc.P + k * pc.P);
     c.tname = "periodic:" + pc.name;
     check_periodic(c, *px, pc.name, pc.P, pc.c, vals);
+  }
+  // component-level metrics: 3-vectors inside and across the cell, with and without minimum image
+  {
+    std::vector<V> v3;
+    for (double x : {-1.5, 0.0, 1.0, 2.5}) for (double y : {-0.5, 0.0, 3.0}) for (double z : {0.0, 1.0}) v3.push_back(V{{x, y, z}});
+    c.tname = "component:distanceVec/minimum-image"; check_component_metric(c, *px, "dv", v3, false, 4.0);
+    c.tname = "component:distanceVec/forceNoPBC"; check_component_metric(c, *px, "dvn", v3, false, 0.0);
+    c.tname = "component:distanceDir"; check_component_metric(c, *px, "dd", unit, true, 0.0);
+    c.tname = "component:distancePairs"; check_component_metric(c, *px, "dp", gv2, false, 0.0);
+    c.tname = "component:cartesian"; check_component_metric(c, *px, "ca", gv3, false, 0.0);
   }
   total.sample("{\"type\":\"unit3vector\",\"a\":" + vstr(unit[0]) + ",\"b\":" + vstr(unit[5]) + ",\"lambda\":[0,0.25,0.5,0.75,1]}");
   total.sample("{\"type\":\"quaternion\",\"a\":" + vstr(quat[2]) + ",\"b\":" + vstr(quat[3]) + "}");
